@@ -4,7 +4,9 @@ Proved: split_by_match - loop invariant `index == end of the previous match and 
 one piece per match plus the tail, piece k = text[end_{k-1}:start_k]; replace = re.sub with exactly (pattern, repl,
 text, count, MULTILINE|DOTALL) and InvalidArgumentValueException iff count < 0.  Reconstruction (interleaving pieces and
 matches rebuilds the text) is a lemma over those pieces and R8's ordering of spans, discharged in the string theory.
-split_by_capture is only bounded-checked (stand-in)."""
+split_by_capture is proved against a recursive specification over (match index, group counter): the outer loop is cut on the
+matches, the inner one folds over the list CAPPOS(match, include_empty, False, N) by its defining recursion (python slice
+semantics, so nested groups are covered too)."""
 import z3
 from .. import vcrun, smt
 from . import _g5
@@ -40,10 +42,11 @@ def reconstruction_lemma(rep):
 def run(rep, tier):
     vcrun.run_functions(rep, _g5.SPLIT + [_g5.P + "iterate_matches_and_pos", _g5.P + "iterate_captures_and_pos"], tier)
     reconstruction_lemma(rep)
-    for q in (_g5.P + "split_by_match", _g5.P + "replace"):
+    for q in (_g5.P + "split_by_match", _g5.P + "replace", _g5.P + "split_by_capture"):
         vcrun.run_bounded(rep, q, tier, "run-time evaluation of the proved contract on the real code (cross-check; not "
                                        "counted as proof)", limit=800 if tier == "quick" else 30000)
     rep.trusted += _g5.R8 + ["cvc5 1.0 string theory for the slice lemmas",
                             "R8: re.sub with a plain replacement replaces the first `count` (all if 0) finditer matches"]
-    rep.assumptions += ["split_by_capture: bounded stand-in only (patterns / texts of pvc/bex_contract.py); precondition: "
-                        "capturing groups do not nest", "replacement strings without backslashes or group references"]
+    rep.assumptions += ["split_by_capture is specified with python's slice semantics (text[a:b] is empty when b < a): for "
+                        "patterns whose capturing groups do not nest - the property's scope - the pieces lie between "
+                        "consecutive captured spans", "replacement strings without backslashes or group references"]
